@@ -40,3 +40,11 @@ CLAIMED["C08"] = (
  "call-graph reachability (VTA) of process exits and explicit panics from the front-end entry points against a frozen triage table; dispatch totality of switches over constant-returning producers; recover-boundary check on parser entry points",
  "Decides that no os.Exit/log.Fatal/logger.Fatal is reachable from the formatting, detection, parsing and loading entry points, that parser entry points recover their package's bail-out value, that switches over constant-returning producers are total or have a non-panicking default, and that the set of reachable explicit panic sites is exactly the triaged set (a new one is reported). Does not decide implicit run-time panics (index, nil, type assertion), termination or time bounds.",
  CG_BASE)
+CLAIMED["C27"] = (
+ "call-graph reachability (VTA) from the build entry points + AST/SSA classifier of every map range (sorted / commutative with purity summaries / dead / order-escaping against a frozen exception table) + who-may-call rule for time, rand, pid, go, select",
+ "Decides that every map iteration reachable on the build path either cannot let its order escape (keys collected and sorted, or only order-insensitive effects with pure conditions) or is one of the read-and-frozen exceptions, and that no time/random/pid/goroutine/select nondeterminism source is reachable there. Exhaustive over the enumerated sites. Does not decide determinism of Go itself, of sort with ties, or pointer formatting.",
+ CG_BASE)
+CLAIMED["C28"] = (
+ "global-store analysis on SSA over VTA-reachable functions from the api package (stores rooted at package variables, map updates, interprocedural write-through-parameter summaries with guard awareness), minus call edges made under a held package-level mutex; frozen benign table",
+ "Decides that no function reachable from the exported api functions without a held package-level lock writes package-level state, other than the triaged benign rows. Names the variable and writer for each finding. Does not decide races inside the vendored wazero engine, sharing through heap objects passed between calls by design, or interference through the file system.",
+ CG_BASE)
